@@ -10,7 +10,7 @@ for d in seeded/C*/; do
   name=$(basename $d); prop=${name%%-*}
   [ -n "$1" ] && [[ "$name" != $1* ]] && continue
   git -C /repo apply /verif/$d/patch.diff || { echo "| $name | $prop | patch failed | | |" >> $out; continue; }
-  res=$(timeout 900 bin/vcheck prop $prop --tier quick 2>&1)
+  res=$(VERIF_NOEVIDENCE=1 timeout 1800 bin/vcheck prop $prop --tier quick 2>&1)
   git -C /repo checkout -- . ; git -C /repo clean -fdq
   obs=$(echo "$res" | grep "^  obligation" | sed 's/^  obligation //' | cut -c1-110 | head -4 | tr '\n' ';')
   if echo "$res" | grep -q "^VIOLATION property=$prop"; then c=yes; else c=NO; fi
